@@ -65,6 +65,8 @@ def spellings_of(rng, ver, prefix, m):
     out = []
     for ks in V.orderings(m, rng, n_shuffle=6):
         out.append(("order", V.spell(prefix, m, ks)))
+    for ks in V.block_orderings(ver, m, rng, 3):
+        out.append(("order:groups", V.spell(prefix, m, ks)))
     for i, d in enumerate(V.nd_variants(ver, m, rng, n_random=4)):
         kind = "nd:none" if i == 0 else ("nd:all" if i == 1 else "nd:subset")
         if i >= 2:
